@@ -150,3 +150,6 @@ def run(ctx):
 def run_thorough(ctx):
     # A8: clauses enforced by the type system itself, witnessed by compile_fail doctests with compiling twins
     ctx.witness("R10.5", ['SignalVsWait', 'WaitNeedsMut'])
+
+    # whole-program who-may-call (std and libc included): nothing else in the program reachable from the crate sends signals
+    deep_census(ctx, "R10.1", SIGNAL_SENDERS, {"kill": ["posix::kill"]})
